@@ -336,10 +336,7 @@ func parent() {
 	if want(fragName) {
 		fc := &famCov{}
 		ps.perFamily[fragName] = fc
-		fcfgs := []int{1, 4} // 2 threads: non-local and local face
-		if thorough {
-			fcfgs = []int{0, 1, 2, 3, 4, 5}
-		}
+		fcfgs := []int{1, 4} // 2 threads: non-local and local face (both tiers; thorough widens orders, positions and pairs)
 		for _, cfg := range fcfgs {
 			fc.Size += fragSize()
 			const step = 6000
